@@ -12,6 +12,7 @@ structure DState where
   leafIdx : List Nat := []
   tree : Tree := default
   st : State := {}
+  skip : Bool := false     -- after `build auto=1` (block size chosen by the library): nothing to model
 
 def natsOf (ts : List String) : List Nat := ts.map String.toNat!
 
@@ -60,22 +61,15 @@ def printElem : Elem → String
 def shapeOf (leafIdx : List Nat) : Shape :=
   (sortDedup leafIdx).map fun i => (i, (leafIdx.zipIdx.filter (·.1 == i)).map (·.2))
 
-def specValues (D H : Nat) (periodic : Bool) (shape : Shape) (upper : Nat) : List String :=
-  let leaves := shape.map (·.1)
-  let cells := (List.range H).flatMap fun l => (specCells D (H-1) leaves l).map fun c => (l, c)
-  (cells.map fun (l, c) => s!"SV M {l} {c} {hexOf (specMultUpper D H shape upper l c)}") ++
-  (cells.map fun (l, c) => s!"SV L {l} {c} {hexOf (if H > upper then specLocal D H periodic shape upper l c else 0)}") ++
-  ((sortNat (shape.flatMap (·.2))).map fun p =>
-    let i := ((shape.find? (·.2.contains p)).getD default).1
-    s!"SV R {p} {hexOf (specRhs D H periodic shape upper i p)}")
-
 def kv (ts : List String) (key : String) (dflt : Nat) : Nat :=
   match ts.find? (fun t => t.startsWith (key ++ "=")) with
   | some t => ((t.drop (key.length + 1)).toString).toNat!
   | none => dflt
 
 def step (d : DState) (line : String) : DState × List String :=
-  match line.trimAscii.toString.splitOn " " with
+  let toks := line.trimAscii.toString.splitOn " "
+  if d.skip && !(["case", "build", "mark", "end", "tree", "parts"].contains (toks.headD "")) then (d, []) else
+  match toks with
   | "case" :: name => ({}, ["== " ++ " ".intercalate name])
   | "tree" :: ts =>
     ({ d with D := kv ts "D" 3, H := kv ts "H" 3, periodic := kv ts "periodic" 0 == 1 }, [])
@@ -84,9 +78,11 @@ def step (d : DState) (line : String) : DState × List String :=
     let cs := natsOf cs
     let idx := (List.range n).map fun i => encode d.D (d.H - 1) ((cs.drop (i * d.D)).take d.D)
     ({ d with leafIdx := idx }, [])
+  | "mark" :: x => (d, ["M " ++ " ".intercalate x])
   | "build" :: ts =>
+    if kv ts "auto" 0 == 1 then ({ d with skip := true }, []) else
     let t := Tree.build d.D d.H (kv ts "bs" 1) (kv ts "mode" 0 == 1) d.leafIdx
-    ({ d with tree := t, st := {} }, [])
+    ({ d with tree := t, st := {}, skip := false }, [])
   | ["dump", "structure"] => (d, dumpStructure d.tree)
   | ["dump", "values"] => (d, dumpValues d.tree d.st)
   | "exec" :: "seq" :: ts =>
@@ -95,8 +91,6 @@ def step (d : DState) (line : String) : DState × List String :=
     ({ d with st := applyCalls (d.H - 1) po po d.st cs }, cs.map printCall)
   | "spec" :: "elems" :: ts =>
     (d, (specElems d.D d.H d.periodic (shapeOf d.leafIdx) (kv ts "flags" 63) (kv ts "upper" 2)).map printElem)
-  | "spec" :: "values" :: ts =>
-    (d, specValues d.D d.H d.periodic (shapeOf d.leafIdx) (kv ts "upper" 2))
   | "find" :: "cell" :: l :: is =>
     let l := l.toNat!
     (d, (natsOf is).map fun i => match findGroup (d.tree.level l) i with
